@@ -35,6 +35,8 @@ def run(ctx, crate):
     rule_readd_noop(ctx, crate)
     rule_unlink_frees_slot(ctx, crate)
     rule_multi_draw_total(ctx, crate)
+    # "removing, clearing or dropping a bar makes its lines disappear": an empty frame still erases the old rows (no reposition-only path)
+    D.rule_draw_order(ctx, crate)
     D.rule_render_unless_hidden(ctx, crate)
     D.rule_finished_draws_forced(ctx, crate)
     D.rule_rows_newtype(ctx, crate)
